@@ -8,6 +8,7 @@ C11  TLC-generated edit / `plz test` histories are replayed in a scratch reposit
 C24  TLC-generated before/after repositories with the spec's Direct / Affected sets are rendered into scratch
      repositories (with a real git history for --since) and `plz query changes` is asked in both modes.
 """
+import hashlib
 import json
 import os
 import random
@@ -161,7 +162,7 @@ _fresh_lock = threading.Lock()
 
 def fresh_run(ctx, tree, req, log):
     """Outcome of a fresh `plz test` (clean copy of the tree, empty plz-out, no cache); memoised per tree and request."""
-    key = vlib.hashlib.sha1(json.dumps([tree, sorted(req)], sort_keys=True).encode()).hexdigest()
+    key = hashlib.sha1(json.dumps([tree, sorted(req)], sort_keys=True).encode()).hexdigest()
     with _fresh_lock:
         if key in _fresh_memo:
             return _fresh_memo[key]
@@ -188,7 +189,8 @@ def diff_inputs(old, new):
         moved = sorted(set(fo) ^ set(fn))
         same_content = all(fo[p] == fn[p] for p in set(fo) & set(fn))
         if moved and same_content and sorted(fo.values()) == sorted(fn.values()):
-            kind = {"g": "data-target-output", "d": "data-directory-entry"}.get(moved[0][0] if moved[0][:2] != "d1" and moved[0][:2] != "d2" else "f", "data-file")
+            kind = ("data-target-output" if all(p[0] == "g" for p in moved)
+                    else "data-directory-entry" if all(p.startswith("dd") for p in moved) else "data-file")
             cls.append("runtime-file-renamed-same-content:" + kind)
         elif not same_content and not moved:
             which = sorted(p for p in fo if fo[p] != fn[p])
